@@ -264,3 +264,10 @@ contract("StreamThreshold.remove_alt", contexts=["StreamThreshold"], properties=
          modifies=["self._bins", "self._CountMinSketch__elements_added", MT],
          ensures=[("estimate_is_the_sketch_estimate", _RESULT_MIN),
                   ("table_holds_key_iff_estimate_meets_threshold", _ST_TABLE), ("inv", "inv_cms(self)")])
+
+for _r, _m in (("CountMeanSketch", "mean"), ("CountMeanMinSketch", "mean-min")):
+    contract(f"{_r}.__init__", contexts=[_r], properties=["C05", "C07"],
+             params=_INIT_PARAMS, requires=_INIT_REQ, raises=_INIT_RAISES_CMS, modifies=["self"],
+             ensures=_INIT_ENS + [("mode", f"mode_of(self) == default_mode(self)"), ("size_ok", "len(self._bins) == cw(self) * cd(self)"),
+                                  ("valid", "valid_query_mode(self)")])
+CONTRACTS["CountMinSketch.query_type.setter"].contexts += ["CountMeanSketch", "CountMeanMinSketch"]
